@@ -64,6 +64,12 @@ func main() {
 		os.Exit(2)
 	}
 	c := &mc.Ctx{ID: id, Tier: *tier, Seed: seed, Start: time.Now(), Budget: budget, Rep: mc.NewReporter(id, fnd), Ev: mc.NewEvidence("model_checking"), Hooks: checks.HooksOn}
+	mc.OnJobPanic = func(i int64, p any, stack string) {
+		if len(stack) > 1500 {
+			stack = stack[:1500]
+		}
+		c.Rep.Report("panic-while-checking", map[string]any{"kind": "note", "job": i, "message": fmt.Sprintf("panic inside the check while examining what the library returned (a nil or malformed result where the property demands a value): %v\n%s", p, stack)})
+	}
 	f(c)
 	exit, known := c.Rep.Finish()
 	if err := c.Ev.Write(c, c.Rep.Violations(), known); err != nil {
